@@ -37,7 +37,7 @@ def copy(R, prog):
             vi = f.value_init(a['decl'])
             sh = f.show(vi) if vi is not None and vi >= 0 else ''
             return re.match(r'^min\(%s, \w+\.iov_len, \w+\.iov_len\)$' % re.escape(size), sh) is not None and \
-                ('G:dest.empty()=F' in st) and ('G:src.empty()=F' in st)
+                (('G:%s.empty()=F' % K.param(f, 0)) in st) and (('G:%s.empty()=F' % K.param(f, 1)) in st)
         K.check_at(R, P + '.K11', G, res, lambda ev: ev.kind == 'call' and ev.callee() == 'memcpy', ok,
                    key_fn=lambda ev, n=n: '%s.K11:_copy_pipe_iov#%d:step-bounded-by-both-sides' % (P, n),
                    describe=lambda ev: 'memcpy length = min(size, dest.front().iov_len, src.front().iov_len) with both sides non-empty', min_sites=1, what='memcpy')
@@ -75,27 +75,36 @@ def extract(R, prog):
     R.require(len(lam) == 1, 'C14: extract_front(bytes, iovector_view*) callback not found')
     G = K.build_f(R, prog, lam[0])
     res = an.run(G, [an.GuardTracker(lambda k: True)])
-    K.check_at(R, P + '.K6', G, res, lambda ev: ev.kind == 'unop' and ev.e['op'] == '++' and ev.path(ev.e['sub']) == 'iov->iovcnt',
-               require=lambda st, ev: any(re.match(r'^G:iov->iovcnt == N=F$', k) for k in st),
+    out = K.param(f, 1)                     # (bytes, iov): the output view
+    ncap = K.locals_defined_only_by(f, r'^%s->iovcnt$' % re.escape(out))
+    CN = K.canon({'iov': out, 'N': (sorted(ncap) or [None])[0]})
+    K.check_at(R, P + '.K6', G, res, lambda ev: ev.kind == 'unop' and ev.e['op'] == '++' and CN.s(ev.path(ev.e['sub'])) == 'iov->iovcnt',
+               require=lambda st, ev: 'G:iov->iovcnt == N=F' in CN(st),
                key_fn=lambda ev: P + '.K6:iovector_view::extract_front(view):store-below-capacity',
                describe=lambda ev: 'output element stored only while iovcnt != N (capacity captured before the loop)', min_sites=1, what='iov->iov[k] store')
-    ncap = K.local_names_init_by(f, lambda e, i: 'iovcnt' in f.show(i))
-    (R.held if 'N' in ncap else R.violated)(P + '.K6', P + '.K6:iovector_view::extract_front(view):capacity-captured', f.id, '%s:%d' % (f.file, f.line), 'N = iov->iovcnt captured before resetting it')
+    (R.held if len(ncap) == 1 else R.violated)(P + '.K6', P + '.K6:iovector_view::extract_front(view):capacity-captured', f.id, '%s:%d' % (f.file, f.line), 'N = iov->iovcnt captured before resetting it')
     f = prog.find('iovector_view::extract_back', sig='iovector_view *')
     lam = prog.lambdas_of(f)
     R.require(len(lam) == 1, 'C14: extract_back(bytes, iovector_view*) callback not found')
     G = K.build_f(R, prog, lam[0])
     res = an.run(G, [an.GuardTracker(lambda k: True)])
-    K.check_at(R, P + '.K6', G, res, lambda ev: ev.kind == 'unop' and ev.e['op'] == '--' and ev.path(ev.e['sub']) == 'begin',
-               require=lambda st, ev: any(re.match(r'^G:begin == iov->iov=F$', k) for k in st),
+    out = K.param(f, 1)
+    CN = K.canon({'iov': out, 'begin': K.one(K.locals_defined_only_by(f, r'^\(%s->iov \+ \w+\)$' % re.escape(out)), 'output cursor (one past the array end)', f)})
+    K.check_at(R, P + '.K6', G, res, lambda ev: ev.kind == 'unop' and ev.e['op'] == '--' and CN.s(ev.path(ev.e['sub'])) == 'begin',
+               require=lambda st, ev: 'G:begin == iov->iov=F' in CN(st),
                key_fn=lambda ev: P + '.K6:iovector_view::extract_back(view):store-above-array-start',
                describe=lambda ev: 'output element stored (growing downwards) only while begin != iov->iov', min_sites=1, what='*--begin store')
     # slice
     G = K.build(R, prog, 'iovector_view::slice')
     res = an.run(G, [an.GuardTracker(lambda k: True), an.ConstTracker()])
-    st_w = lambda ev: ev.kind == 'binop' and ev.e['op'] == '=' and re.match(r'^ptr\[cnt\]\.iov_(base|len)$', ev.path(ev.e['l']) or '')
+    f = G.root
+    out = K.param(f, 2)                      # (count, offset, iov)
+    ptrs = K.locals_defined_only_by(f, r'^%s->iov$' % re.escape(out))
+    idx = set(m.group(2) for m in [re.match(r'^(\w+)\[(\w+)\]\.iov_(base|len)$', f.path(e['l']) or '') for e in f.exprs if e['k'] == 'binop' and e['op'] == '='] if m and m.group(1) in ptrs)
+    CN = K.canon({'iov': out, 'ptr': K.one(ptrs, 'output array pointer', f), 'cnt': K.one(idx, 'output index', f)})
+    st_w = lambda ev: ev.kind == 'binop' and ev.e['op'] == '=' and re.match(r'^ptr\[cnt\]\.iov_(base|len)$', CN.s(ev.path(ev.e['l'])))
     K.check_at(R, P + '.K6', G, res, st_w,
-               require=lambda st, ev: ('V:cnt=0' in st and 'G:iov->iovcnt=T' in st) or 'G:cnt < iov->iovcnt=T' in st,
+               require=lambda st, ev: ('V:cnt=0' in CN(st) and 'G:iov->iovcnt=T' in CN(st)) or 'G:cnt < iov->iovcnt=T' in CN(st),
                key_fn=lambda ev: P + '.K6:iovector_view::slice:store-below-capacity',
                describe=lambda ev: 'output element stored at index 0 of a non-empty output, or at cnt < iov->iovcnt', min_sites=4, what='ptr[cnt] store')
     # contiguous extractors of the view
